@@ -25,7 +25,12 @@ RENAMES = ['-Dmain=lbzip2_main', '-Dpthread_create=vs_create', '-Dpthread_join=v
            '-Dsigaction=vs_sigaction', '-Dpthread_sigmask=vs_sigmask', '-Dsigprocmask=vs_procmask',
            '-Dsigpending=vs_sigpending', '-D_exit=vs_exit', '-Disatty=vs_isatty',
            '-Dflockfile=vs_flockfile', '-Dfunlockfile=vs_funlockfile',
-           '-Dmalloc=vs_malloc', '-Dfree=vs_free', '-Dopen=vs_open', '-Dclose=vs_close']
+           '-Dmalloc=vs_malloc', '-Dfree=vs_free', '-Dclose=vs_close']
+
+# calls that glibc redirects by asm label (open -> open64 ...) cannot be renamed by the
+# preprocessor; their undefined symbols are renamed in the compiled objects instead
+REDEFINE = ['open64=vs_open', 'lstat64=vs_lstat', 'unlink=vs_unlink',
+            'fchown=vs_fchown', 'fchmod=vs_fchmod', 'futimens=vs_futimens']
 
 VARIANTS = {
     # name: (compiler, cflags for lbzip2 sources, ldflags)
@@ -103,7 +108,7 @@ def objects(variant, renamed):
     cc, cflags, _ = VARIANTS[variant]
     flags = ['-std=gnu99', '-fno-pie'] + cflags + DEFS + (RENAMES if renamed else []) + ['-I' + SRC]
     srcs = src_files()
-    key = _hash_files(sorted(glob.glob(os.path.join(SRC, '*.[ch]'))), [cc, flags, renamed])
+    key = _hash_files(sorted(glob.glob(os.path.join(SRC, '*.[ch]'))), [cc, flags, renamed, REDEFINE if renamed else None])
     d = _dir('obj-%s-%s' % (variant, 'r' if renamed else 'p'), key)
     with _Lock(d + '.lock'):
         objs = [os.path.join(d, os.path.basename(s)[:-2] + '.o') for s in srcs]
@@ -113,7 +118,10 @@ def objects(variant, renamed):
         os.makedirs(d, exist_ok=True)
         _par([[cc] + flags + ['-c', s, '-o', o] for s, o in zip(srcs, objs)])
         if renamed:
-            _par([['objcopy', '--rename-section', '.data=lbz_data', '--rename-section', '.bss=lbz_bss', o]
+            red = []
+            for r in REDEFINE:
+                red += ['--redefine-sym', r]
+            _par([['objcopy', '--rename-section', '.data=lbz_data', '--rename-section', '.bss=lbz_bss'] + red + [o]
                   for o in objs])
         open(os.path.join(d, 'ok'), 'w').close()
         _prune(24)
